@@ -172,7 +172,7 @@ Fixpoint seval (se : senv) (svar : option (list sval)) (x : expr) : option sval 
   | EParam n => sassoc n se
   | EVarg i => match svar with None => Some (SVarg i) | Some l => nth_error l i end
   | EConst v => Some (SConst v)
-  | EOpq _ => Some SAny
+  | EOpq t => Some (SConst (VTok t))
   | EKeyX a => match seval se svar a with Some s => Some (SKeyX s) | None => None end
   | EKeyY a => match seval se svar a with Some s => Some (SKeyY s) | None => None end
   end.
@@ -206,15 +206,17 @@ Fixpoint seval_fields (se : senv) (svar : option (list sval)) (l : list (fkind *
                           end
   end.
 
-Definition consume (built : option swire) (exp : list swire) : option nat :=
+Definition consume (built : option swire) (exp : list pitem) : option nat :=
   match built, exp with
-  | Some b, sw :: _ => if swire_ref b sw then Some 1%nat else None
+  | Some b, (sw, _) :: _ => if swire_ref b sw then Some 1%nat else None
   | _, _ => None
   end.
 
-(* chk_body ... exp = Some n : the body's key commands are, in order, the first n prescriptions of exp *)
-Fixpoint chk_body (callk : string -> list sval -> list (string * sval) -> list swire -> option nat)
-         (se : senv) (svar : option (list sval)) (b : body) (exp : list swire) : option nat :=
+Definition is_one (o : option nat) : bool := match o with Some 1%nat => true | _ => false end.
+
+(* chk_body ... exp = Some n : the body's commands are, in order, what the first n items of exp prescribe *)
+Fixpoint chk_body (callk : string -> list sval -> list (string * sval) -> list pitem -> option nat)
+         (se : senv) (svar : option (list sval)) (b : body) (exp : list pitem) : option nat :=
   match b with
   | BSend x y p cmd disc fields =>
       consume (match seval se svar x, seval se svar y, seval se svar p, seval se svar cmd,
@@ -254,6 +256,31 @@ Fixpoint chk_body (callk : string -> list sval -> list (string * sval) -> list s
       | _, _ => None
       end
   | BNeedArgs _ _ b1 => chk_body callk se svar b1 exp
+  | BIfTrue _ b1 b2 =>
+      match chk_body callk se svar b1 exp, chk_body callk se svar b2 exp with
+      | Some n1, Some n2 => if Nat.eqb n1 n2 then Some n1 else None
+      | _, _ => None
+      end
+  | BNeedInt _ => Some 0%nat
+  | BForEach x b_each b_scalar =>
+      (* the item must allow any number of commands; each element's commands are one such command *)
+      let each := match exp with
+                  | (sw, true) :: _ => is_one (chk_body callk se svar b_each [(sw, false)])
+                  | _ => false
+                  end in
+      let scalar := is_one (chk_body callk se svar b_scalar exp) in
+      match seval se svar x with
+      | Some (SConst v) =>
+          (* a literal of the source: which way the test goes is known *)
+          match iter_len v with
+          | Some _ => if each then Some 1%nat else None
+          | None => if scalar then Some 1%nat else None
+          end
+      | Some _ => if each && scalar then Some 1%nat else None
+      | None => None
+      end
+  | BFail x => match x with FuelErr => None | _ => Some 0%nat end
+  | BSkip => match exp with (_, true) :: _ => Some 1%nat | _ => None end
   | BNoSend => Some 0%nat
   end.
 
@@ -264,7 +291,7 @@ Definition senv_of (sg : msig) (m : string) (spos : list sval) (skw : list (stri
   ++ map (fun n => (n, SInner m n)) (map fst (sg_params sg) ++ map fst (sg_kwonly sg)).
 
 Fixpoint chk_call (fuel : nat) (cls m : string) (spos : list sval) (skw : list (string * sval))
-         (exp : list swire) : option nat :=
+         (exp : list pitem) : option nat :=
   match fuel with
   | O => None
   | S f =>
@@ -309,7 +336,7 @@ Proof.
     + eapply A2; eauto.
     + inversion Hs; subst. apply A2. exact He.
   - inversion Hs; inversion He; subst. reflexivity.
-  - inversion Hs; subst. exact I.
+  - inversion Hs; inversion He; subst. reflexivity.
   - destruct (seval se svar x) as [s0|]; [|discriminate]. inversion Hs; subst.
     destruct (eval e x) as [u|]; [|discriminate]. simpl. exists u. split; [|exact He].
     apply IHx; auto. split; assumption.
@@ -388,14 +415,78 @@ Proof.
   destruct (eval e (EVarg i)) as [x|]; inversion H; reflexivity.
 Qed.
 
-(* what is known about a run against the prescription exp of which the check used n entries *)
-Definition pref (g : callctx) (exp : list swire) (n : nat) (o : outcome) : Prop :=
-  exists k, (k <= n)%nat /\ Forall2 (wire_den g) (firstn k exp) (fst o)
-            /\ (snd o = None -> k = n) /\ snd o <> Some FuelErr.
+(* ------------------------------------------------------------------ patterns *)
+Lemma pmatch_ppre : forall g p ws, pmatch g p ws -> ppre g p ws.
+Proof.
+  intros g p ws H. induction H.
+  - constructor.
+  - apply PP_one; assumption.
+  - apply PP_skip; assumption.
+  - apply PP_more; assumption.
+Qed.
+
+Lemma ppre_app_l : forall g p1 p2 ws, ppre g p1 ws -> ppre g (p1 ++ p2) ws.
+Proof.
+  intros g p1 p2 ws H. induction H; simpl.
+  - constructor.
+  - apply PP_one; assumption.
+  - apply PP_skip; assumption.
+  - apply PP_more; assumption.
+Qed.
+
+Lemma pmatch_app : forall g p1 p2 ws1 ws2, pmatch g p1 ws1 -> pmatch g p2 ws2 -> pmatch g (p1 ++ p2) (ws1 ++ ws2).
+Proof.
+  intros g p1 p2 ws1 ws2 H1 H2. induction H1; simpl.
+  - exact H2.
+  - apply PM_one; assumption.
+  - apply PM_skip; assumption.
+  - apply PM_more; assumption.
+Qed.
+
+Lemma pmatch_ppre_app : forall g p1 p2 ws1 ws2, pmatch g p1 ws1 -> ppre g p2 ws2 -> ppre g (p1 ++ p2) (ws1 ++ ws2).
+Proof.
+  intros g p1 p2 ws1 ws2 H1 H2. induction H1; simpl.
+  - exact H2.
+  - apply PP_one; assumption.
+  - apply PP_skip; assumption.
+  - apply PP_more; assumption.
+Qed.
+
+Lemma pmatch_single : forall g sw b w, wire_den g sw w -> pmatch g [(sw, b)] [w].
+Proof.
+  intros g sw [|] w H.
+  - apply PM_more; [exact H|]. apply PM_skip. constructor.
+  - apply PM_one; [exact H|constructor].
+Qed.
+
+(* an item allowing any number of commands: every command satisfies it *)
+Lemma star_of_forall : forall g sw ws, Forall (wire_den g sw) ws -> pmatch g [(sw, true)] ws.
+Proof.
+  intros g sw ws H. induction H.
+  - apply PM_skip. constructor.
+  - apply PM_more; assumption.
+Qed.
+
+Lemma ppre_nil_inv : forall g ws, ppre g [] ws -> ws = [].
+Proof. intros g ws H. inversion H; reflexivity. Qed.
+
+Lemma forall_of_ppre_single : forall g sw b ws, ppre g [(sw, b)] ws -> Forall (wire_den g sw) ws.
+Proof.
+  intros g sw b ws H. remember [(sw, b)] as p eqn:E. revert E.
+  induction H; intros E.
+  - constructor.
+  - inversion E; subst. apply ppre_nil_inv in H0. subst. constructor; [assumption|constructor].
+  - inversion E; subst. apply ppre_nil_inv in H. subst. constructor.
+  - inversion E; subst. constructor; [assumption|]. apply IHppre. reflexivity.
+Qed.
+
+(* what is known about a run against the prescription exp of which the check used n items *)
+Definition pref (g : callctx) (exp : list pitem) (n : nat) (o : outcome) : Prop :=
+  ppre g (firstn n exp) (fst o) /\ (snd o = None -> pmatch g (firstn n exp) (fst o)) /\ snd o <> Some FuelErr.
 
 Lemma pref_error : forall g exp n e, e <> FuelErr -> pref g exp n ([], Some e).
 Proof.
-  intros. exists 0%nat. simpl. repeat split; try lia; try constructor; try discriminate. congruence.
+  intros. unfold pref. simpl. split; [constructor|]. split; [discriminate|congruence].
 Qed.
 
 Lemma firstn_plus : forall {A} (l : list A) n m, firstn (n + m) l = firstn n l ++ firstn m (skipn n l).
@@ -411,14 +502,46 @@ Lemma consume_sound : forall g built exp n w,
   pref g exp n ([w], None).
 Proof.
   intros g built exp n w H D. unfold consume in H.
-  destruct built as [b|]; [|discriminate]. destruct exp as [|sw r]; [discriminate|].
+  destruct built as [b|]; [|discriminate]. destruct exp as [|[sw star] r]; [discriminate|].
   destruct (swire_ref b sw) eqn:R; [|discriminate]. inversion H; subst.
-  exists 1%nat. simpl. repeat split; try lia; try discriminate.
-  constructor; [|constructor]. eapply swire_ref_den; eauto.
+  assert (M : pmatch g [(sw, star)] [w]) by (apply pmatch_single; eapply swire_ref_den; eauto).
+  unfold pref. simpl. split; [apply pmatch_ppre; exact M|]. split; [intros _; exact M|discriminate].
+Qed.
+
+Lemma pref_seq : forall g exp n1 n2 o1 (o2 : unit -> outcome),
+  pref g exp n1 o1 -> (snd o1 = None -> pref g (skipn n1 exp) n2 (o2 tt)) ->
+  pref g exp (n1 + n2) (seq_outcome o1 o2).
+Proof.
+  intros g exp n1 n2 [ws1 e1] o2 [P1 [M1 F1]] H2. unfold seq_outcome. simpl in *.
+  destruct e1 as [e1|].
+  - unfold pref. simpl. rewrite firstn_plus. split; [apply ppre_app_l; exact P1|].
+    split; [discriminate|exact F1].
+  - specialize (M1 eq_refl). specialize (H2 eq_refl). destruct (o2 tt) as [ws2 e2].
+    destruct H2 as [P2 [M2 F2]]. unfold pref. simpl in *. rewrite firstn_plus.
+    split; [apply pmatch_ppre_app; assumption|]. split; [|exact F2].
+    intros E. apply pmatch_app; auto.
+Qed.
+
+Lemma pref_nothing : forall g exp, pref g exp 0 ([], None).
+Proof. intros. unfold pref. simpl. split; [constructor|]. split; [intros _; constructor|discriminate]. Qed.
+
+(* a command sent once per element *)
+Lemma pref_repeat : forall g sw n (f : unit -> outcome),
+  pref g [(sw, false)] 1 (f tt) ->
+  Forall (wire_den g sw) (fst (repeat_outcome n f)) /\ snd (repeat_outcome n f) <> Some FuelErr.
+Proof.
+  intros g sw n f [P [M F]]. simpl in P.
+  assert (Hf : forall u : unit, f u = f tt) by (intros []; reflexivity).
+  induction n as [|n IH]; simpl.
+  - split; [constructor|discriminate].
+  - unfold seq_outcome. destruct (f tt) as [ws1 [e1|]] eqn:E1; simpl in *.
+    + split; [eapply forall_of_ppre_single; eauto|exact F].
+    + destruct (repeat_outcome n f) as [ws2 e2]. simpl in *. destruct IH as [I1 I2].
+      split; [|exact I2]. apply Forall_app. split; [eapply forall_of_ppre_single; eauto|exact I1].
 Qed.
 
 Definition callk_sound (g : callctx)
-           (callk : string -> list sval -> list (string * sval) -> list swire -> option nat)
+           (callk : string -> list sval -> list (string * sval) -> list pitem -> option nat)
            (callf : string -> list value -> list (string * value) -> outcome) : Prop :=
   forall m spos skw exp n vpos vkw,
     callk m spos skw exp = Some n -> args_agree g spos vpos -> kw_agree g skw vkw ->
@@ -503,17 +626,7 @@ Proof.
     destruct (chk_body callk se svar b1 exp) as [n1|] eqn:C1; [|discriminate].
     destruct (chk_body callk se svar b2 (skipn n1 exp)) as [n2|] eqn:C2; [|discriminate].
     inversion Hc; subst n. clear Hc.
-    specialize (IHb1 se svar exp n1 e Hk C1 A). specialize (IHb2 se svar (skipn n1 exp) n2 e Hk C2 A).
-    unfold seq_outcome.
-    destruct (run_body callf (cc_ctl g) e b1) as [ws1 [e1|]].
-    + destruct IHb1 as [k [K1 [K2 [K3 K4]]]]. exists k. simpl in *.
-      split; [lia|]. split; [exact K2|]. split; [discriminate|exact K4].
-    + destruct IHb1 as [k1 [K1 [K2 [K3 K4]]]]. simpl in *. specialize (K3 eq_refl). subst k1.
-      destruct (run_body callf (cc_ctl g) e b2) as [ws2 e2].
-      destruct IHb2 as [k2 [L1 [L2 [L3 L4]]]]. simpl in *.
-      exists (n1 + k2)%nat. simpl.
-      split; [lia|]. split; [rewrite firstn_plus; apply Forall2_app; assumption|].
-      split; [intros E; rewrite (L3 E); reflexivity|exact L4].
+    apply pref_seq; [eapply IHb1; eauto|]. intros _. eapply IHb2; eauto.
   - (* BIfAligned *)
     destruct (chk_body callk se svar b1 exp) as [n1|] eqn:C1; [|discriminate].
     destruct (chk_body callk se svar b2 exp) as [n2|] eqn:C2; [|discriminate].
@@ -527,8 +640,60 @@ Proof.
     destruct ((lo <=? List.length (e_varargs e))%nat && (List.length (e_varargs e) <=? hi)%nat).
     + eapply IHb; eauto.
     + apply pref_error; discriminate.
+  - (* BIfTrue *)
+    destruct (chk_body callk se svar b1 exp) as [n1|] eqn:C1; [|discriminate].
+    destruct (chk_body callk se svar b2 exp) as [n2|] eqn:C2; [|discriminate].
+    destruct (Nat.eqb n1 n2) eqn:E; [|discriminate]. apply Nat.eqb_eq in E. inversion Hc; subst.
+    destruct (eval e cnd) as [v|]; [|apply pref_error; discriminate].
+    destruct (truthy v).
+    + eapply IHb1; eauto.
+    + eapply IHb2; eauto.
+  - (* BNeedInt *)
+    inversion Hc; subst.
+    destruct (eval e ie) as [v|]; [|apply pref_error; discriminate].
+    destruct (as_int v); [apply pref_nothing|apply pref_error; discriminate].
+  - (* BForEach *)
+    destruct (seval se svar it) as [sv|] eqn:Sv; [|discriminate].
+    destruct (eval e it) as [v|] eqn:Ev; [|apply pref_error; discriminate].
+    assert (Hd : den g sv v) by (eapply seval_sound; eauto).
+    assert (Each : forall sw r, exp = (sw, true) :: r ->
+                   is_one (chk_body callk se svar b1 [(sw, false)]) = true ->
+                   forall k, pref g exp 1 (repeat_outcome k (fun _ => run_body callf (cc_ctl g) e b1))).
+    { intros sw r Eexp H1 k. subst exp.
+      destruct (chk_body callk se svar b1 [(sw, false)]) as [[|[|?]]|] eqn:C1; try discriminate.
+      pose proof (IHb1 se svar [(sw, false)] 1%nat e Hk C1 A) as P1.
+      destruct (pref_repeat g sw k (fun _ => run_body callf (cc_ctl g) e b1) P1) as [R1 R2].
+      unfold pref. simpl. pose proof (star_of_forall g sw _ R1) as M.
+      split; [apply pmatch_ppre; exact M|]. split; [intros _; exact M|exact R2]. }
+    assert (Scal : is_one (chk_body callk se svar b2 exp) = true ->
+                   pref g exp 1 (run_body callf (cc_ctl g) e b2)).
+    { intros H1.
+      destruct (chk_body callk se svar b2 exp) as [[|[|?]]|] eqn:C2; try discriminate.
+      eapply IHb2; eauto. }
+    set (each := match exp with
+                 | (sw, true) :: _ => is_one (chk_body callk se svar b1 [(sw, false)])
+                 | _ => false
+                 end) in Hc.
+    set (scalar := is_one (chk_body callk se svar b2 exp)) in Hc.
+    assert (Hn : n = 1%nat /\ match iter_len v with Some _ => each = true | None => scalar = true end).
+    { destruct sv as [a0|v0| |m0 n0|i0|a0|a0]; simpl in Hd;
+        try (destruct each; destruct scalar; simpl in Hc; try discriminate Hc; inversion Hc;
+             split; [reflexivity|]; destruct (iter_len v); reflexivity).
+      subst v0. destruct (iter_len v).
+      - destruct each; [|discriminate Hc]. inversion Hc. auto.
+      - destruct scalar; [|discriminate Hc]. inversion Hc. auto. }
+    destruct Hn as [Hn1 Hn2]. subst n. clear Hc.
+    destruct (iter_len v) as [k|].
+    + destruct exp as [|[sw [|]] r]; subst each; try discriminate Hn2. eapply Each; eauto.
+    + subst scalar. apply Scal. exact Hn2.
+  - (* BFail *)
+    destruct er; inversion Hc; subst; apply pref_error; discriminate.
+  - (* BSkip *)
+    destruct exp as [|[sw [|]] r]; try discriminate. inversion Hc; subst.
+    unfold pref. simpl. assert (M : pmatch g [(sw, true)] []) by (apply PM_skip; constructor).
+    split; [constructor|]. split; [intros _; exact M|discriminate].
   - (* BNoSend *)
-    inversion Hc; subst. exists 0%nat. simpl. repeat split; auto; try constructor; discriminate.
+    inversion Hc; subst. apply pref_nothing.
 Qed.
 
 (* the binding of a nested call *)
@@ -646,10 +811,10 @@ Qed.
 
 Theorem chk_top_sound : forall fuel cls m sg,
   find_sig cls m = Some sg -> chk_top fuel cls m = true ->
-  exists sws, declared_wires cls m = Some sws /\
+  exists p, declared_wires cls m = Some p /\
     forall c s pos kw,
-      wires_den (MkCC c cls sg s pos kw) sws (fst (call (S fuel) c cls m s pos kw))
-                (snd (call (S fuel) c cls m s pos kw)).
+      pres_ok (MkCC c cls sg s pos kw) p (fst (call (S fuel) c cls m s pos kw))
+              (snd (call (S fuel) c cls m s pos kw)).
 Proof.
   intros fuel cls m sg Hf Hc. unfold chk_top in Hc. rewrite Hf in Hc.
   destruct (body_of cls m) as [b|] eqn:Hb; [|discriminate].
@@ -664,27 +829,27 @@ Proof.
                   (fun m' p' k' => call fuel c cls m' s p' k') b (senv_top sg) None exp
                   (List.length exp) e (chk_call_sound (MkCC c cls sg s pos kw) fuel) Hchk
                   (top_binding_agrees c cls sg s pos kw e (find_sig_wf _ _ _ Hf) Hres)) as P.
-    simpl in P. destruct P as [k [K1 [K2 [K3 K4]]]]. exists k. auto.
-  - exists 0%nat. simpl. repeat split; try lia; try constructor; discriminate.
+    simpl in P. unfold pref in P. rewrite firstn_all in P. exact P.
+  - unfold pres_ok. simpl. split; [constructor|]. split; discriminate.
 Qed.
 
 (* ------------------------------------------------------------------ every generated signature *)
 Lemma all_methods_checked :
-  forallb (fun sg => chk_top 5 (sg_cls sg) (sg_name sg)) all_signatures = true.
+  forallb (fun sg => chk_top 7 (sg_cls sg) (sg_name sg)) all_signatures = true.
 Proof. vm_compute. reflexivity. Qed.
 
 Theorem wire_carries_resolved : forall cls m sg,
   find_sig cls m = Some sg ->
-  exists sws, declared_wires cls m = Some sws /\
+  exists p, declared_wires cls m = Some p /\
     forall c s pos kw ws e,
-      call FUEL c cls m s pos kw = (ws, e) -> wires_den (MkCC c cls sg s pos kw) sws ws e.
+      call FUEL c cls m s pos kw = (ws, e) -> pres_ok (MkCC c cls sg s pos kw) p ws e.
 Proof.
   intros cls m sg Hf.
   destruct (find_sig_in_list _ _ _ _ Hf) as [Hin [E1 E2]].
   pose proof all_methods_checked as G. rewrite forallb_forall in G. specialize (G sg Hin).
   rewrite E1, E2 in G.
-  destruct (chk_top_sound 5 cls m sg Hf G) as [sws [D W]].
-  exists sws. split; [exact D|]. intros c s pos kw ws e Hcall.
+  destruct (chk_top_sound 7 cls m sg Hf G) as [p [D W]].
+  exists p. split; [exact D|]. intros c s pos kw ws e Hcall.
   specialize (W c s pos kw). unfold FUEL in Hcall. rewrite Hcall in W. exact W.
 Qed.
 
